@@ -67,6 +67,8 @@ def gen_transform(rng, idx, pool=POOL, allow_params=True, allow_opt=True, avail=
     for key in ('inherit', 'exclude'):
         if isinstance(d.get(key), list) and len(d[key]) == 1 and rng.random() < 0.5:
             d[key + '_str'] = True
+    if isinstance(d.get('inherit'), list) and not d.get('inherit_str') and rng.random() < 0.3:
+        d['inherit_set'] = True        # written as a set object that is changed after the class statement
     return d
 
 
